@@ -45,6 +45,12 @@ CHECKS = {
     'C10': dict(engine='ProcessCore', technique='TLA+ ProcessCore awaitables extension (workchains.Waiting enter/exit/_awaitable_done), TLC exhaustive (C10_Barrier, C10_FailureStops) + replay on real WorkChains with futures and launched children',
                 text='<=3 awaited items x registration way x outcome {ok, fails, killed} x every completion order and grouping into loop iterations x pause/play/kill placements; the step after the barrier records which futures are done and the ctx.',
                 ref='5 C10', note=CORE_NOTE),
+    'C11': dict(engine='Ports', technique='TLA+ Ports: operational PreProcess/Validate/ValidatePorts/ValidateDynamicPorts/OnCreate (mirror of ports.py, processes.py) vs declarative Completed/Accepts, TLC on every (tree, input) instance; every instance constructed on a fresh real Process subclass',
+                text='Port trees with all attribute combinations for one port and small variants up to 3 (4 thorough) ports x every nested input over {absent, 0, -1, "s", "", {}, nested dicts}; constructor raise/no raise, inputs leaf for leaf, read-only at every declared level, raw_inputs and the caller dict unchanged.',
+                ref='5 C11', note='Trusted base: TLC, harness/ports_real.py. Raise/no-raise is compared, not the exception type.'),
+    'C12': dict(engine='Ports', technique='TLA+ Ports: operational OutCall/GetPort/StoreOut/OnFinishValidate vs declarative OutputAccepts/OutputsSatisfy, TLC on every (output tree, out() call sequence); every instance run on real processes (also two successive instances of one class)',
+                text='Output trees x sequences of <=2 (3 thorough) out(path, value) calls incl. nested and dynamic paths: exception type per call, outputs after each call, on_output_emitted arguments, future result, is_successful, result().',
+                ref='5 C12', note='Trusted base: TLC, harness/ports_real.py.'),
     'C14': dict(engine='Persister', technique='TLA+ Persister: abstract (pid,tag)->snapshot store with in-memory and pickle-file refinements in lockstep (AbsMem, AbsFiles, contracts, Equivalent), TLC over every history of <=L operations; histories replayed on both real persisters side by side',
                 text='Every history of <=4 (6 thorough) save/load/list/delete/delete-pid/progress/resume operations over 2 processes x tags, id kinds int/UUID/string with prefix pairs; results, exception classes and decoded bundles compared with the model store and with each other, also after the live and the recreated process moved on.',
                 ref='5 C14', note='Trusted base: TLC, harness/persister_real.py; pickle directory in a temp dir removed per history.'),
@@ -57,6 +63,9 @@ CHECKS = {
     'C16': dict(engine='ProcessCore', technique='TLA+ ProcessCore comms extension (message_receive/broadcast_receive/_schedule_rpc reply tasks, state_changed announcements) + ProcessFaults twin for broadcast failures, TLC exhaustive + replay through an in-process communicator',
                 text='Every sequence of <=K RPC/broadcast control messages (also mixed with direct calls) between any two callbacks: state, replies and event log equal the specification in which the handler applies the direct-call operator; announcements once and in order; tolerated broadcast failures leave the run identical to a fault-free twin; unsubscribed after termination.',
                 ref='5 C16', note=CORE_NOTE + ' RabbitMQ is replaced by an in-process kiwipy.LocalCommunicator subclass.'),
+    'C17': dict(engine='Launcher', technique='TLA+ Launcher: operational mirror of ProcessLauncher.__call__/_launch/_continue/_create over an abstract persister, 8 invariants + 7 action properties (CreateOK, LaunchOK, ContinueOK, NowaitReply, RejectOK, LoaderUsed ...), TLC over every history of <=K tasks; every behaviour replayed on the real launcher (direct and through controllers + LoopCommunicator)',
+                text='Histories of <=2 (3 thorough) create/launch/continue/unknown tasks x persist x nowait x tag x 3 process classes x {no, in-memory, pickle} persister x {default, custom} loader; replies, persister content, constructed processes and their step traces, loader resolutions compared after every action.',
+                ref='5 C17', note='Trusted base: TLC, harness/launcher_real.py (in-process communicator with kiwipy.rmq conventions).'),
     'C20': dict(engine='Adapters', technique='TLA+ Adapters (futures, ready queue, synchronous kiwipy callbacks), TLC exhaustive (Faithful, ExactlyOnce, ActionOnce, Stable) + replay of every behaviour on the real adapters + validation of message_receive traces',
                 text='Chains of futures resolving to futures to depth 2 (4 thorough), every outcome at every level in every completion order, for create_task, plum_to_kiwi_future, unwrap_kiwi_future, their composition, convert_to_comm, _schedule_rpc replies and CancellableAction histories.',
                 ref='5 C20', note='Trusted base: TLC, harness/vloop.py, harness/adapters_real.py. Real cross-thread delivery is not explored.'),
@@ -83,6 +92,8 @@ m = {
          'kind_free_text': 'explicit TLA+ specification of PortNamespace.absorb / ProcessSpec.expose_* (operational vs declarative)'},
         {'name': 'Persister', 'path': 'spec/Persister.tla', 'serves_properties': ['C14'], 'kind_free_text': 'explicit TLA+ refinement spec of the two persisters'},
         {'name': 'Savable', 'path': 'spec/Savable.tla', 'serves_properties': ['C19'], 'kind_free_text': 'explicit TLA+ spec of Savable save/load over a heap model'},
+        {'name': 'Ports', 'path': 'spec/Ports.tla', 'serves_properties': ['C11', 'C12'], 'kind_free_text': 'explicit TLA+ spec of port trees: pre_process/validate/out (operational vs declarative)'},
+        {'name': 'Launcher', 'path': 'spec/Launcher.tla', 'serves_properties': ['C17'], 'kind_free_text': 'explicit TLA+ spec of ProcessLauncher tasks over an abstract persister'},
         {'name': 'Adapters', 'path': 'spec/Adapters.tla', 'serves_properties': ['C20'],
          'kind_free_text': 'explicit TLA+ specification of the future adapters and CancellableAction'},
     ],
